@@ -285,6 +285,7 @@ func runC06(r *core.Run) {
 	})
 	c06History(r)
 	c06HistoryScan(r)
+	c06HistoryCLI(r)
 }
 
 func replayC06(r *core.Run, kind string, raw json.RawMessage) {
